@@ -82,6 +82,7 @@ type modeObs struct {
 	Rel    []modeAdj  `json:"rel"`
 	Pre    []modePair `json:"pre"`
 	Post   []modePair `json:"post"`
+	Seed   []modePair `json:"seed"` // New: the values of the PullModeValues seed
 	Ret    []modePair `json:"ret"`
 	Err    string     `json:"err"`
 	Panic  string     `json:"panic"`
@@ -93,7 +94,7 @@ func runMode(raw json.RawMessage, out *hx.Out) {
 	w := decode[modeWalk](raw)
 	var m *modepb.Model
 	o := modeObs{Model: "mode", Walk: w.N, Op: "New", Custom: w.Cfg.Custom, Modes: w.Cfg.Modes, Avail: []absMode{},
-		Abs: []modePair{}, Rel: []modeAdj{}, Pre: []modePair{}, Post: []modePair{}, Ret: []modePair{}, Err: "OK"}
+		Abs: []modePair{}, Rel: []modeAdj{}, Pre: []modePair{}, Post: []modePair{}, Ret: []modePair{}, Seed: []modePair{}, Err: "OK"}
 	o.Panic = hx.Catch(func() {
 		if w.Cfg.Custom {
 			m = modepb.NewModelModes(concModes(w.Cfg.Modes))
@@ -102,6 +103,11 @@ func runMode(raw json.RawMessage, out *hx.Out) {
 		}
 		o.Avail = absModesOf(m.Modes())
 		o.Post = pairsOf(m.ModeValues())
+		seed, _ := pullSeed(func(ctx context.Context) <-chan modepb.ModeValuesChange { return m.PullModeValues(ctx) }, 1)
+		o.Seed = []modePair{{Mode: "<no seed>"}}
+		if len(seed) == 1 {
+			o.Seed = pairsOf(seed[0].Value)
+		}
 	})
 	out.Write(o)
 	if m == nil {
@@ -110,7 +116,7 @@ func runMode(raw json.RawMessage, out *hx.Out) {
 	srv := modepb.NewModelServer(m)
 	for i, op := range w.Ops {
 		o := modeObs{Model: "mode", Walk: w.N, Step: i + 1, Op: op.Op, Custom: w.Cfg.Custom, Modes: w.Cfg.Modes,
-			Avail: []absMode{}, Abs: []modePair{}, Rel: op.Rel, Ret: []modePair{}, Err: "OK"}
+			Avail: []absMode{}, Abs: []modePair{}, Rel: op.Rel, Ret: []modePair{}, Seed: []modePair{}, Err: "OK"}
 		if o.Rel == nil {
 			o.Rel = []modeAdj{}
 		}
